@@ -183,7 +183,7 @@ std::string decode_text(std::string const &enc)
 {
   std::string r;
   for (char c : enc)
-    r.push_back(c == 'N' ? '\n' : c == 'S' ? ' ' : c == 'T' ? '\t' : c == 'R' ? '\r' : c == 'X' ? '\xe9' : c == 'Y' ? '\xff' : c == 'Z' ? '\0' : c == '_' ? '\0' : 'a');
+    r.push_back(c == 'N' ? '\n' : c == 'S' ? ' ' : c == 'T' ? '\t' : c == 'R' ? '\r' : c == 'X' ? '\xe9' : c == 'Y' ? '\xff' : c == 'W' ? '\x01' : c == 'Z' ? '\0' : c == '_' ? '\0' : 'a');
   if (enc == "_")
     r.clear();
   return r;
@@ -516,7 +516,8 @@ struct World
     for (char c : dec)
     {
       unsigned char const u = static_cast<unsigned char>(c);
-      full.push_back(sizeof(Ch) > 1 && u == 0xE9 ? static_cast<Ch>(0x20AC) : sizeof(Ch) > 1 && u == 0xFF ? static_cast<Ch>(0xFF) : static_cast<Ch>(c));
+      // wide streams get characters beyond one byte: U+20AC, and U+010A whose LOW byte is '\n'
+      full.push_back(sizeof(Ch) > 1 && u == 0xE9 ? static_cast<Ch>(0x20AC) : sizeof(Ch) > 1 && u == 0xFF ? static_cast<Ch>(0xFF) : sizeof(Ch) > 1 && u == 0x01 ? static_cast<Ch>(0x010A) : static_cast<Ch>(c));
     }
     long const trunc = plan.cfg.get("trunc", -1);
     text = trunc >= 0 && static_cast<std::size_t>(trunc) < full.size() ? full.substr(0, static_cast<std::size_t>(trunc)) : full;
@@ -604,7 +605,7 @@ void generate(sim::Rng &rng, sim::Plan &p, bool thorough)
     unsigned const r = static_cast<unsigned>(rng.below(6 + nl_weight));
     // rarely: carriage return, a character >= 0x80 (sign extension), NUL
     if (backend != 2 && rng.chance(1, 25))
-      text.push_back("RXYZ"[rng.below(4)]);
+      text.push_back("RXYZW"[rng.below(5)]);
     else
       text.push_back(r < 3 ? 'a' : r < 4 ? 'S' : r < 5 ? 'T' : 'N');
   }
